@@ -851,12 +851,27 @@ impl Run {
     }
 
     /// Replay mode: run `check` on the stored case; prints the verdict and exits.
-    pub fn replay(&self, file: &Value, check: impl FnOnce(&Value) -> Vec<Violation>) -> ! {
+    pub fn replay(&self, file: &Value, check: impl FnOnce(&Value) -> Vec<Violation> + Send) -> ! {
         let case = file.get("case").cloned().unwrap_or_else(|| machinery_exit("replay file has no case"));
-        let vs = match guard(|| check(&case)) {
-            Ok(v) => v,
-            Err(m) => machinery_exit(&format!("replay panicked outside the subject: {}", m)),
-        };
+        // a replayed call that does not come back is the violation itself (termination is part of C12/C13): wait
+        // on a watchdog, as the explorer does
+        let limit = Duration::from_secs(std::env::var("VERIF_REPLAY_LIMIT_S").ok().and_then(|s| s.parse().ok()).unwrap_or(90));
+        let prop = self.prop;
+        let vs = std::thread::scope(|sc| {
+            let (tx, rx) = std::sync::mpsc::channel();
+            let case_ref = &case;
+            sc.spawn(move || {
+                let _ = tx.send(guard(|| check(case_ref)));
+            });
+            match rx.recv_timeout(limit) {
+                Ok(Ok(v)) => v,
+                Ok(Err(m)) => machinery_exit(&format!("replay panicked outside the subject: {}", m)),
+                Err(_) => {
+                    println!("VIOLATION property={} replay=(replayed) site=watchdog class=nonterminating case={} expected=returns within {} s observed=still running", prop, case_ref, limit.as_secs());
+                    std::process::exit(1);
+                }
+            }
+        });
         if vs.is_empty() {
             println!("REPLAY-OK property={} case={} : no violation", self.prop, case);
             std::process::exit(0);
